@@ -4,7 +4,8 @@
 // implementation written here from the XEP text (no QXmpp code), and compares its SHA-1 with the REAL
 // QXmppDiscoveryIq::verificationString() of the same object (this is what the client advertises in <c ver=.../>).
 //
-//   replay_caps all        run every scenario; print each mismatch; exit 1 if any scenario of class "must" mismatches
+//   replay_caps all        run every scenario; print each mismatch; exit 1 if any scenario is violated
+//   replay_caps regress    run the scenarios outside the input classes of the recorded findings (they hold on a correct tree)
 //   replay_caps <name>     run one scenario: exit 1 if advertised hash != XEP hash of the answered info set
 #include "QXmppDataForm.h"
 #include "QXmppDiscoveryIq.h"
@@ -78,7 +79,7 @@ static QXmppDataForm::Field fld(QXmppDataForm::Field::Type t, const QString &key
     return f;
 }
 
-struct Scenario { const char *name; const char *what; QXmppDiscoveryIq iq; };
+struct Scenario { const char *name; const char *what; QXmppDiscoveryIq iq; bool finding = false; };
 
 static QXmppDiscoveryIq base(const QList<QXmppDataForm::Field> &extra)
 {
@@ -127,10 +128,30 @@ int main(int argc, char **argv)
         sc.append({ "duplicate_field_var", "two fields with the same var", iq });
     }
 
+    {   // the same info set as the XEP example, everything listed in another order, one feature twice
+        auto iq = base({ fld(F::TextSingleField, "software_version", QString("0.11")), fld(F::TextSingleField, "software", QString("Psi")), fld(F::ListMultiField, "ip_version", QStringList { "ipv4", "ipv6" }), fld(F::TextSingleField, "os_version", QString("10.5.1")), fld(F::TextSingleField, "os", QString("Mac")) });
+        auto ids = iq.identities(); std::reverse(ids.begin(), ids.end()); iq.setIdentities(ids);
+        auto fs = iq.features(); std::reverse(fs.begin(), fs.end()); fs << fs.first(); iq.setFeatures(fs);
+        sc.append({ "reordered_and_repeated", "XEP 5.3 example in another order, a feature twice (hash must still be q07IKJEyjvHSyhy//CH0CxmKi8w=)", iq });
+    }
+    {   // identities that differ only in one component each
+        auto iq = base({});
+        QList<QXmppDiscoveryIq::Identity> ids;
+        const char *t[][4] = { { "client", "pc", "en", "B" }, { "client", "pc", "en", "A" }, { "client", "pc", "de", "Z" }, { "client", "bot", "en", "Z" }, { "account", "registered", "", "" }, { "client", "pc", "", "Z" } };
+        for (auto &x : t) { QXmppDiscoveryIq::Identity i; i.setCategory(x[0]); i.setType(x[1]); i.setLanguage(x[2]); i.setName(x[3]); ids << i; }
+        iq.setIdentities(ids);
+        sc.append({ "identity_order", "identities that differ in exactly one of category / type / lang / name", iq });
+    }
+    for (auto &s : sc) {
+        for (const char *f : { "empty_single_value", "empty_multi_value", "boolean_field", "unset_value", "non_bmp_order", "duplicate_field_var" }) {
+            if (QLatin1String(s.name) == QLatin1String(f)) s.finding = true;
+        }
+    }
+
     const QString which = argc > 1 ? QString::fromLocal8Bit(argv[1]) : QString("all");
     int bad = 0, ran = 0;
     for (auto &s : sc) {
-        if (which != "all" && which != s.name) continue;
+        if (which == "regress" ? s.finding : (which != "all" && which != s.name)) continue;
         ran++;
         QBuffer buf; buf.open(QIODevice::ReadWrite);
         QXmlStreamWriter w(&buf);
